@@ -17,6 +17,7 @@ import (
 	"runtime"
 	"sync"
 	"sync/atomic"
+	"syscall"
 	"testing"
 
 	"github.com/safing/portbase/database/record"
@@ -110,6 +111,41 @@ func readerSetups() []readerSetup {
 		}),
 		fileSetup("utils.CopyFileAtomic", func(dest, src string, data []byte, stage string) error {
 			return utils.CopyFileAtomic(dest, src, nil)
+		}),
+		// the source is a named pipe: what a stat call says about the size of the source has nothing to do with what
+		// reading it to its end delivers
+		fileSetup("utils.CopyFileAtomic(named pipe)", func(dest, src string, data []byte, stage string) error {
+			fifo := filepath.Join(stage, "src.fifo")
+			if err := syscall.Mkfifo(fifo, 0o644); err != nil {
+				return fmt.Errorf("harness: %w", err)
+			}
+			defer os.Remove(fifo)
+			fed := make(chan error, 1)
+			go func() {
+				f, err := os.OpenFile(fifo, os.O_WRONLY, 0)
+				if err != nil {
+					fed <- err
+					return
+				}
+				_, err = f.Write(data)
+				if cerr := f.Close(); err == nil {
+					err = cerr
+				}
+				fed <- err
+			}()
+			err := utils.CopyFileAtomic(dest, fifo, nil)
+			if err != nil {
+				// release a feeder that still waits for the other end
+				if f, e := os.OpenFile(fifo, os.O_RDONLY|syscall.O_NONBLOCK, 0); e == nil {
+					_ = f.Close()
+				}
+				<-fed
+				return err
+			}
+			if ferr := <-fed; ferr != nil {
+				return fmt.Errorf("CopyFileAtomic reported success but did not read its source (a named pipe fed with %d bytes) to the end: %w", len(data), ferr)
+			}
+			return nil
 		}),
 		fileSetup("utils.ReplaceFileAtomic", func(dest, src string, data []byte, stage string) error {
 			return utils.ReplaceFileAtomic(dest, src, &utils.AtomicFileOptions{TempDir: stage})
@@ -254,6 +290,10 @@ func TestPropReadersSeeCompleteFiles(t *testing.T) {
 		}
 		if e := firstErr.Load(); e != nil {
 			t.Fatalf("C17 violated (concurrent readers, writer %s, sizes %v, initially present %v, TMPDIR same mount %v): %v", su.writer, sizes, present, sameMount, e)
+		}
+		// the last replacement is what the destination shows in the end
+		if b, ok, err := read(false); err != nil || !ok || !bytes.Equal(b, shared.MakeContent(seed0+uint64(su.iters), sizeFor(sizes, su.iters))) {
+			t.Fatalf("C17 violated: after %d successful replacements through %s the destination does not hold the last version (present %v, %d bytes, read error %v; sizes %v)", su.iters, su.writer, ok, len(b), err, sizes)
 		}
 		// nothing but the destination (and the harness' own files) may remain: no stray temp files after successful operations
 		if left := strayFiles(dir); len(left) > 0 {
